@@ -788,11 +788,29 @@ class ListPaths:
           pass
     return [(path, self._eval(e, env))]
 
-  def _cond(self, t, env):
-    pol = True
-    while isinstance(t, ast.UnaryOp) and isinstance(t.op, ast.Not):
-      t, pol = t.operand, not pol
-    return src(self._node(t, env)), pol
+  def _cases(self, t, want, env):
+    """The ways `t` can come out `want`: a list of conjunctions of atomic
+    (text, polarity) facts, following short-circuit evaluation (`a and b` is
+    false when a is false, or a is true and b is false).  A constant test
+    gives the pseudo-atom (None, <whether it comes out as wanted>)."""
+    if isinstance(t, ast.UnaryOp) and isinstance(t.op, ast.Not):
+      return self._cases(t.operand, not want, env)
+    if isinstance(t, ast.BoolOp):
+      conj = isinstance(t.op, ast.And)
+      if conj == want:       # all operands must come out `want`
+        out = [[]]
+        for v in t.values:
+          out = [a + b for a in out for b in self._cases(v, want, env)]
+        return out
+      out = []               # the first operand that comes out `want` decides
+      prefix = [[]]
+      for v in t.values:
+        out += [a + b for a in prefix for b in self._cases(v, want, env)]
+        prefix = [a + b for a in prefix for b in self._cases(v, not want, env)]
+      return out
+    if isinstance(t, ast.Constant):
+      return [[(None, bool(t.value) == want)]]
+    return [[(src(self._node(t, env)), want)]]
 
   # -- statements ------------------------------------------------------------------
   def _run(self, stmts, state, stop, level, root):
@@ -820,21 +838,24 @@ class ListPaths:
     if isinstance(st, ast.Raise):
       return
     if isinstance(st, ast.If):
-      text, pol = self._cond(st.test, env)
-      t0 = st.test
-      while isinstance(t0, ast.UnaryOp) and isinstance(t0.op, ast.Not):
-        t0 = t0.operand
-      for branch, truth in ((st.body, pol), (st.orelse, not pol)):
-        if (text, not truth) in path:
-          continue   # infeasible on this path
-        if isinstance(t0, ast.Constant) and bool(t0.value) != truth:
-          continue   # constant test: the other arm never runs
-        p2 = path if (text, truth) in path else path + ((text, truth),)
-        for kind, s2, val in self._run(list(branch), (dict(env), p2), stop, level, root):
-          if kind == "end":
-            yield from self._run(rest, s2, stop, level, root)
-          else:
-            yield (kind, s2, val)
+      for branch, want in ((st.body, True), (st.orelse, False)):
+        for case in self._cases(st.test, want, env):
+          p2 = path
+          feasible = True
+          for text, truth in case:
+            if text is None:            # constant test
+              feasible = feasible and truth
+            elif (text, not truth) in p2:
+              feasible = False
+            elif (text, truth) not in p2:
+              p2 = p2 + ((text, truth),)
+          if not feasible:
+            continue
+          for kind, s2, val in self._run(list(branch), (dict(env), p2), stop, level, root):
+            if kind == "end":
+              yield from self._run(rest, s2, stop, level, root)
+            else:
+              yield (kind, s2, val)
       return
     if isinstance(st, ast.Assign) and len(st.targets) == 1 and isinstance(st.targets[0], ast.Name):
       name = st.targets[0].id
